@@ -92,7 +92,8 @@ def check(ctx):
                     h = tb.joperand(c["args"][1])
                     da, sa = (h[3][0], h[3][1]) if h[0] == "agg" else (("?",), ("?",))
                 ctx.ob("a.range", "probe-da|%s" % short, path_str(strip_casts(da)) == "self.cursor", "the probe must be addressed to the sweep cursor, found " + show(da), f.loc(b))
-                ok_sa = sa[0] == "field" and sa[2] == "address" and M.mentions(sa, M.t_call("parameters"))
+                from rules.C03 import is_own_address
+                ok_sa = is_own_address(sa)
                 ctx.ob("a.range", "probe-sa|%s" % short, ok_sa, "the probe's source must be this station's address, found " + show(sa), f.loc(b))
             # ---- c: cursor advance under the done flag, flag cleared in the same step
             marks = {}
